@@ -324,6 +324,11 @@ func exec(op string) string {
 		return execTk(f)
 	case "res":
 		return execRes(f)
+	case "rs":
+		return execRs(f)
+	case "kr":
+		x.ServerCerts()
+		return vh.SafeTimeout(120*time.Second, func() string { return execKr(f) })
 	case "is":
 		x.ServerCerts() // key generation outside the watchdog
 		x.PKIErr()
@@ -726,6 +731,13 @@ func gen(r *vh.Rand) string {
 		return genSc(r)
 	case 3, 4:
 		return genIs(r)
+	case 5:
+		// real listener + several RSA handshakes per history (about 75 ms): few in the quick tier
+		if vh.Thorough || r.Chance(1, 2) {
+			return genKr(r)
+		}
+	case 6, 7:
+		return genRs(r)
 	}
 	switch r.Intn(10) {
 	case 0:
